@@ -274,9 +274,43 @@ func WalkReturns(from *ssa.If, onTrue bool, nonNil []ssa.Value, visit func(ret *
 		env    map[*ssa.Phi]ssa.Value
 		nonNil map[ssa.Value]bool
 		isNil  map[ssa.Value]bool
+		cells  map[*ssa.Alloc]ssa.Value // local variables that live in memory (named results of a function with defers)
+		loads  map[ssa.Value]ssa.Value  // what a load of such a variable saw on this path
+	}
+	newState := func() *state {
+		return &state{env: map[*ssa.Phi]ssa.Value{}, nonNil: map[ssa.Value]bool{}, isNil: map[ssa.Value]bool{}, cells: map[*ssa.Alloc]ssa.Value{}, loads: map[ssa.Value]ssa.Value{}}
+	}
+	// a local whose address does not escape into a closure or call is written only by the stores seen on the path
+	private := map[*ssa.Alloc]bool{}
+	for _, b := range fn.Blocks {
+		for _, in := range b.Instrs {
+			al, ok := in.(*ssa.Alloc)
+			if !ok {
+				continue
+			}
+			okP := true
+			for _, rf := range *al.Referrers() {
+				switch x := rf.(type) {
+				case *ssa.Store:
+					if x.Addr != ssa.Value(al) {
+						okP = false
+					}
+				case *ssa.UnOp, *ssa.DebugRef:
+				default:
+					okP = false
+				}
+			}
+			private[al] = okP
+		}
 	}
 	clone := func(s *state) *state {
-		n := &state{env: map[*ssa.Phi]ssa.Value{}, nonNil: map[ssa.Value]bool{}, isNil: map[ssa.Value]bool{}}
+		n := newState()
+		for k, v := range s.cells {
+			n.cells[k] = v
+		}
+		for k, v := range s.loads {
+			n.loads[k] = v
+		}
 		for k, v := range s.env {
 			n.env[k] = v
 		}
@@ -290,6 +324,10 @@ func WalkReturns(from *ssa.If, onTrue bool, nonNil []ssa.Value, visit func(ret *
 	}
 	resolve := func(s *state, v ssa.Value) ssa.Value {
 		for i := 0; i < 16; i++ {
+			if l, ok := s.loads[v]; ok {
+				v = l
+				continue
+			}
 			phi, ok := v.(*ssa.Phi)
 			if !ok {
 				return v
@@ -391,7 +429,7 @@ func WalkReturns(from *ssa.If, onTrue bool, nonNil []ssa.Value, visit func(ret *
 		}
 		if onPath[b] {
 			// next iteration: nothing learnt so far is valid any more
-			s = &state{env: map[*ssa.Phi]ssa.Value{}, nonNil: map[ssa.Value]bool{}, isNil: map[ssa.Value]bool{}}
+			s = newState()
 			key := fmt.Sprintf("loop:%d<-%d", b.Index, pred.Index)
 			if seen[key] {
 				return nil
@@ -418,6 +456,20 @@ func WalkReturns(from *ssa.If, onTrue bool, nonNil []ssa.Value, visit func(ret *
 		}
 		onPath[b] = true
 		defer delete(onPath, b)
+		for _, in := range b.Instrs {
+			switch x := in.(type) {
+			case *ssa.Store:
+				if al, ok := x.Addr.(*ssa.Alloc); ok && private[al] {
+					s.cells[al] = resolve(s, x.Val)
+				}
+			case *ssa.UnOp:
+				if al, ok := x.X.(*ssa.Alloc); ok && x.Op == token.MUL && private[al] {
+					if v, has := s.cells[al]; has {
+						s.loads[x] = v
+					}
+				}
+			}
+		}
 		last := b.Instrs[len(b.Instrs)-1]
 		switch x := last.(type) {
 		case *ssa.Return:
@@ -456,7 +508,7 @@ func WalkReturns(from *ssa.If, onTrue bool, nonNil []ssa.Value, visit func(ret *
 		}
 		return nil
 	}
-	s0 := &state{env: map[*ssa.Phi]ssa.Value{}, nonNil: map[ssa.Value]bool{}, isNil: map[ssa.Value]bool{}}
+	s0 := newState()
 	for _, v := range nonNil {
 		s0.nonNil[v] = true
 	}
